@@ -663,6 +663,11 @@ ROOT_QUERIES = ["unit (pos == 1) root ?root offset", "unit (pos >= 1) root ?root
                 "[entry] (|L| L elem (pos >= 9) ?root offset, L elem ?root offset)", "[entry] relem ?root offset"]
 
 
+SYMBOL_FILES = ["/repo/tests/y.o", "/repo/tests/y-mips.o", "/repo/tests/a1.out"]
+SYMBOL_QUERIES = ["symbol label", "symbol binding", "symbol [label, binding, visibility] \"%s\"", "symbol (label == STT_ARM_TFUNC) name", "symbol (binding == STB_MIPS_SPLIT_COMMON) name",
+                  "symbol label \"%s\"", "symbol binding \"%s\"", "[symbol binding] length", "symbol (label \"%s\" \"LOPROC\" ?find) name"]
+
+
 def work_mix(task):
     seed, start, count = task
     ev = Evidence()
@@ -716,7 +721,15 @@ def work_mix(task):
             steps = [(rnd.choice(ROOT_QUERIES), rnd.choice(rf), rnd.random() < 0.3, "") for _ in range(rnd.randint(3, 8))]
             reuse = rnd.random() < 0.4
             ev.label("mixed-sequence:which-DIE-is-asked-first-whether-it-is-a-root")
-        if reuse:
+        sym_scenario = rnd.random() < 0.06 and all(os.path.exists(p_) for p_ in SYMBOL_FILES)
+        if sym_scenario:
+            # one compiled query over the symbol tables of files of different machines, in turn: how a type or a
+            # binding is named belongs to the file, not to the query
+            qs = rnd.sample(SYMBOL_QUERIES, 2)
+            order = rnd.sample(SYMBOL_FILES, len(SYMBOL_FILES))
+            steps = [(rnd.choice(qs), order[j % len(order)], False, "") for j in range(rnd.randint(4, 8))]
+            ev.label("mixed-sequence:one-compiled-symbol-query-over-several-machines")
+        if reuse and not sym_scenario:
             # the same few queries again and again, on alternating inputs
             few = rnd.sample(steps, min(len(steps), 2))
             steps = [(rnd.choice(few)[0],) + rnd.choice(steps)[1:] for _ in range(rnd.randint(4, 10))]
@@ -724,6 +737,7 @@ def work_mix(task):
             if not steps:
                 continue
         try:
+            reuse = reuse or sym_scenario
             bad = run_mix(steps, cache, reuse)
             ev.case(key=("mix", reuse, repr(steps)), nontrivial=len(set(s_[0] for s_ in steps)) >= 3 or reuse)
             ev.label("mixed-sequence")
@@ -812,6 +826,7 @@ def main(tier, seed):
                           "repeated opens on the build without sanitizers": ev.labels.get("plain-repeat", 0) >= 15,
                           "mixed sequences that open an archive with supplementary files again and again": ev.labels.get("mixed-sequence:archive-with-supplementary-files", 0) > 40,
                           "mixed sequences that ask different DIEs first whether they are roots": ev.labels.get("mixed-sequence:which-DIE-is-asked-first-whether-it-is-a-root", 0) > 60,
+                          "mixed sequences of one compiled symbol query over several machines": ev.labels.get("mixed-sequence:one-compiled-symbol-query-over-several-machines", 0) > 30,
                           "mixed sequences with rejected compilations in between": ev.labels.get("mixed-sequence:rejected-compilations-in-between", 0) > 50,
                           "mixed sequences over twin files (same offsets, different meaning)": ev.labels.get("mixed-sequence:twin-files", 0) > 100})
 
